@@ -12,8 +12,10 @@ void harness(void) {
   Token tok = {0}; tok.loc = "x"; tok.len = 1;
   Obj va = {0}; Node a = {0}, b = {0}, s = {0}, bin = {0}; Member mem = {0};
   Type TA = {TY_INT, 4, 4}, TB = {TY_LONG, 8, 8, 1}, TS = {TY_STRUCT, 8, 4};
-  IN(int, ka); ASSUME(0 <= ka && ka <= 3);
-  TA = ka == 0 ? (Type){TY_CHAR, 1, 1, 1} : ka == 1 ? (Type){TY_SHORT, 2, 2} : ka == 2 ? (Type){TY_INT, 4, 4} : (Type){TY_LONG, 8, 8};
+  IN(int, ka); ASSUME(0 <= ka && ka <= 4);
+  static Type PB = {TY_INT, 4, 4};
+  TA = ka == 0 ? (Type){TY_CHAR, 1, 1, 1} : ka == 1 ? (Type){TY_SHORT, 2, 2} : ka == 2 ? (Type){TY_INT, 4, 4} : ka == 3 ? (Type){TY_LONG, 8, 8} : (Type){TY_PTR, 8, 8, 1};
+  if (ka == 4) TA.base = &PB;     /* an (atomic) pointer object: op= on it must take the same path */
   Scope sc = {0}; scope = &sc;
   va.ty = &TA; va.is_local = 1; va.name = "a";
   a.kind = ND_VAR; a.var = &va; a.ty = &TA; a.tok = &tok;
